@@ -66,7 +66,7 @@ CLAIMED = {
   note="Trusts M-split. Quick uses 2^12 for most offsuit pairs; thorough 3^12 for all 78.",
   ref="4/C12"),
  "C15": dict(
-  technique="schedule enumeration: own DFS over all call-granularity interleavings of up to four live evaluators with iterated preemption bound; shuttle exhaustive DFS over real spawned threads; all first-use orders in fresh processes; compile-time Send+Sync probe",
+  technique="schedule enumeration: own DFS over all call-granularity interleavings of up to four live evaluators with iterated preemption bound; every assignment of calls to two real OS threads (thread hand-offs); shuttle exhaustive DFS over spawned threads, and - when a change adds std sync primitives / thread_local! - an instrumented copy of the crate explored with an own preemption-bounded DFS scheduler; all first-use orders in fresh processes; compile-time Send+Sync probe",
   text="Every interleaving of the actors' API calls on one thread (unbounded for the two- and four-actor groups, preemption-bounded for three in quick) and every shuttle schedule of threads yielding before each call must give each evaluator the sequence it gives alone; every order of first use in a fresh process must give the same solo sequences, equal to what M-deals derives from the actor's own inputs; the public types must be Send + Sync.",
   note="Preemption inside one API call is not explored (no sync primitive to intercept; premise 'no shared mutable state in src/' audited each run and recorded, never a verdict). A free-running 16-thread pass is sampling and labelled so.",
   ref="4/C15", engine="vcheck+sched"),
